@@ -39,7 +39,7 @@ structure Meta where
 deriving DecidableEq, Repr, Inhabited
 
 inductive Err where
-  | notfound | exists_ | notdir | invalid | rootexists | isdir | intoself
+  | notfound | exists_ | notdir | invalid | rootexists | isdir | intoself | busy | nofd
 deriving DecidableEq, Repr
 
 mutual
@@ -443,6 +443,10 @@ inductive Op where
   | stat (p : List Name)
   | ls (p : List Name)
   | lsl (p : List Name)
+  | dmkdir (p : List Name) (k : Name)   -- lookupDir(p).Mkdir(k)
+  | rflush                              -- Root.Flush
+  | memfree                             -- Root.FlushMemFree
+  | reopen                              -- Root.Close, then NewRoot from the root directory's node
 
 inductive Out where
   | unit
@@ -478,6 +482,10 @@ def opR (cmpNames : Bool) : Op → L → R Out
   | .stat p, root => (atPath p actStat root).out .stat
   | .ls p, root => (atPath p actLs root).out .names
   | .lsl p, root => (atPath p actLsl root).out .listing
+  | .dmkdir p k, root => (atPath p (mkdirFinal false false {} k) root).out fun _ => .unit
+  | .rflush, root => ⟨.ok .unit, root.sync, some root.sync.node⟩
+  | .memfree, root => (actFlush root).out fun _ => .unit
+  | .reopen, root => ⟨.ok .unit, root.sync.node.load, some root.sync.node⟩
 
 /-- one op on the MFS: what reaches `Root.updateChildEntry` becomes the published node -/
 def step (cmpNames : Bool) (s : St) (op : Op) : St × Except Err Out :=
@@ -489,6 +497,124 @@ def run (cmpNames : Bool) : St → List Op → St × List (Except Err Out)
   | s, op :: ops =>
     let r := step cmpNames s op
     let r' := run cmpNames r.1 ops
+    (r'.1, r.2 :: r'.2)
+
+/-! ### a write descriptor kept open across operations
+
+One descriptor at a time.  `fi.Open(Flags{Write, Sync})` builds a DagModifier from `fi.node`; writes go to the
+modifier only; `flushUp` replaces `fi.node` by the modifier's node -- bytes AND the metadata the node had when
+the descriptor was opened -- and tells the parent when asked to (`Flush`, or `Close` of a Sync descriptor),
+unless the descriptor is already flushed and untouched (`stateFlushed`).  The `*File` stays the object cached
+under its path until an operation unlinks that entry or an ancestor entry (`Unlink`, `Mv`); from then on what
+the descriptor flushes reaches nothing that the root can see (`inode.unlinked` for the file, the `fix:` in
+`Directory.updateChildEntry` for ancestors).  Operations that would block on the file's `desclock`, and
+directory flushes above the open file (they drop the live object from the cache without unlinking it: see
+docs/notes/C19.md, "floating descriptors"), are refused here and not executed by the harness (`busy`). -/
+
+def Ents.cached (k : Name) : Ents → Option L
+  | .nil => none
+  | .dead k' _ r => if k' = k then none else r.cached k
+  | .live k' _ l r => if k' = k then some l else r.cached k
+
+/-- the object at the end of `p` is reached through cached children only -/
+def L.cachedAt : List Name → L → Bool
+  | [], _ => true
+  | _ :: _, .file .. => false
+  | k :: ks, .dir _ e =>
+    match e.cached k with
+    | some c => L.cachedAt ks c
+    | none => false
+
+structure Fd where
+  path : List Name
+  buf : Bytes
+  m : Meta
+  sync : Bool
+  /-- `state == stateFlushed` -/
+  clean : Bool
+  /-- the `*File` is still the object cached under `path` -/
+  att : Bool
+
+structure StD where
+  st : St
+  fd : Option Fd
+
+inductive OpD where
+  | base (op : Op)
+  | fdopen (p : List Name) (sync : Bool)
+  | fdwrite (off : Nat) (b : Bytes)
+  | fdtrunc (size : Nat)
+  | fdflush
+  | fdclose
+
+/-- `fi.Open`: bytes and metadata of the node the DagModifier starts from -/
+def actOpen : L → R (Bytes × Meta)
+  | .file d m => ⟨.ok (d, m), .file d m, none⟩
+  | .dir m e => ⟨.error .isdir, .dir m e, none⟩
+
+/-- `flushUp`: the modifier's node replaces `fi.node` -/
+def actSetFile (full : Bool) (d : Bytes) (m : Meta) : L → R Unit
+  | .file _ _ => ⟨.ok (), .file d m, if full then some (.file d m) else none⟩
+  | .dir m' e => ⟨.error .isdir, .dir m' e, none⟩
+
+/-- would the operation block on the open file's lock, or drop the open file's live object from a cache? -/
+def busyOp (fd : Fd) : Op → Bool
+  | .write p _ _ _ => fd.att && p == fd.path
+  | .trunc p _ _ => fd.att && p == fd.path
+  | .read p => fd.att && p == fd.path
+  | .flush p => fd.att && p.isPrefixOf fd.path
+  | .mkdir p _ flush _ => fd.att && flush && p.isPrefixOf fd.path
+  | .memfree => fd.att
+  | .reopen => true
+  | _ => false
+
+/-- `flushUp(full)` of the open descriptor -/
+def flushUp (full : Bool) (s : St) (fd : Fd) : St × Fd :=
+  if fd.clean then (s, fd)
+  else if fd.att then
+    let r := atPath fd.path (actSetFile full fd.buf fd.m) s.root
+    (⟨r.l, r.up.getD s.pub⟩, { fd with clean := true })
+  else (s, { fd with clean := true })
+
+def stepD (s : StD) : OpD → StD × Except Err Out
+  | .base op =>
+    match s.fd with
+    | none => let r := step false s.st op; (⟨r.1, none⟩, r.2)
+    | some fd =>
+      if busyOp fd op then (s, .error .busy)
+      else
+        let r := step false s.st op
+        (⟨r.1, some { fd with att := fd.att && r.1.root.cachedAt fd.path }⟩, r.2)
+  | .fdopen p sync =>
+    match s.fd with
+    | some _ => (s, .error .busy)
+    | none =>
+      let r := atPath p actOpen s.st.root
+      match r.res with
+      | .error e => (⟨⟨r.l, s.st.pub⟩, none⟩, .error e)
+      | .ok (d, m) => (⟨⟨r.l, s.st.pub⟩, some ⟨p, d, m, sync, false, true⟩⟩, .ok .unit)
+  | .fdwrite off b =>
+    match s.fd with
+    | none => (s, .error .nofd)
+    | some fd => (⟨s.st, some { fd with buf := writeAt off b fd.buf, clean := false }⟩, .ok .unit)
+  | .fdtrunc size =>
+    match s.fd with
+    | none => (s, .error .nofd)
+    | some fd => (⟨s.st, some { fd with buf := truncTo size fd.buf, clean := false }⟩, .ok .unit)
+  | .fdflush =>
+    match s.fd with
+    | none => (s, .error .nofd)
+    | some fd => let r := flushUp true s.st fd; (⟨r.1, some r.2⟩, .ok .unit)
+  | .fdclose =>
+    match s.fd with
+    | none => (s, .error .nofd)
+    | some fd => let r := flushUp fd.sync s.st fd; (⟨r.1, none⟩, .ok .unit)
+
+def runD : StD → List OpD → StD × List (Except Err Out)
+  | s, [] => (s, [])
+  | s, op :: ops =>
+    let r := stepD s op
+    let r' := runD r.1 ops
     (r'.1, r.2 :: r'.2)
 
 end C19
